@@ -112,6 +112,13 @@ func (g *c1gen) val(depth int, marksOK bool, self string) (string, bool) {
 			return g.scalar(), false
 		case w < 70:
 			g.count("conj")
+			if g.r.Chance(1, 3) {
+				// two references (often selectors with the same label into different
+				// structs) meeting at one node
+				l, lm := g.ref(marksOK, self)
+				r, rm := g.ref(marksOK && !lm, self)
+				return c1par(l) + " & " + c1par(r), lm || rm
+			}
 			l, lm := g.val(0, marksOK, self)
 			r, rm := g.val(0, marksOK && !lm, self)
 			return c1par(l) + " & " + c1par(r), lm || rm
@@ -139,6 +146,11 @@ func (g *c1gen) val(depth int, marksOK bool, self string) (string, bool) {
 			return s, m
 		case w < 70:
 			g.count("conj")
+			if g.r.Chance(1, 4) {
+				l, lm := g.ref(marksOK, self)
+				r, rm := g.ref(marksOK && !lm, self)
+				return c1par(l) + " & " + c1par(r), lm || rm
+			}
 			l, lm := g.val(depth-1, marksOK, self)
 			r, rm := g.val(depth-1, marksOK && !lm, self)
 			if g.r.Chance(1, 4) {
